@@ -447,6 +447,7 @@ def d3_matrices(ctx, idx):
                 r.check(sh == ('tuple', (d, d)), 'SquareMatrixSamplingSet.__init__', 'shape = (dimension, dimension)',
                         'shape is set to %s: the sampled matrix is not dimension x dimension' % ai.show(sh), fi.loc,
                         expected='(dimension, dimension)', found=ai.show(sh))
+        _overwritten_options(r, idx)
         fi, paths = _paths(idx, M + 'IdentityMatrixMultiples.generate_sample')
         for p in paths:
             where = lib.loc(fi, p.stmt or fi.node)
@@ -463,6 +464,46 @@ def d3_matrices(ctx, idx):
             r.check(v.is_matrix and v.equals(want), 'IdentityMatrixMultiples.generate_sample', 'sampler draw * eye(dimension)',
                     'the sample is %s instead of (one draw of the scalar sampler) * identity(dimension)' % v.text(), where,
                     expected='(scalar)*I_dimension', found=v.text())
+
+
+def _overwritten_options(r, idx):
+    """An array sampler must not accept an option that its constructor then replaces on every path by a value that does not
+    depend on it (the author would declare a shape and get another one): such an option may only admit the neutral value None."""
+    for ci in idx.family(ARR):
+        init = ci.methods.get('__init__')
+        if init is None:
+            continue
+        try:
+            qs = [q for q in ai.sym_exec(idx, init) if q.kind == 'fall']
+        except Unsupported:
+            continue
+        if not qs:
+            continue
+        keys = set.intersection(*[{k[1] for k in q.store if k[0] == 'cfg'} for q in qs])
+        for key in sorted(keys):
+            if any(ai.mentions(q.store[('cfg', key)], ('cfg', key)) for q in qs):
+                continue
+            stored = ai.show(qs[0].store[('cfg', key)])
+            for sub in idx.family(ci.qualname):
+                if idx.lookup(sub, '__init__') is not init and not any(
+                        f is init for f in [idx.lookup_after(sub, x, '__init__') for x in sub.mro if x in idx.classes]):
+                    continue
+                try:
+                    sd = ai.schema_dict(idx, sub)
+                except Unsupported as e:
+                    r.undecided('%s: option %r' % (sub.name, key), 'schema not readable: %s' % e, sub.loc)
+                    continue
+                if sd is None or key not in sd:
+                    continue
+                dflt, val, _m = sd[key]
+                construct = "%s: option %r is replaced by %s.__init__" % (sub.name, key, ci.name)
+                if isinstance(val, ast.Constant) and val.value is None:
+                    r.ok(construct, 'the schema admits only None for it', sub.loc, nontrivial=(sub is ci))
+                else:
+                    r.violation(construct, "%s accepts a value for %r (validator `%s`, default %s) but %s.__init__ replaces it on every path by "
+                                '`%s`: the author can declare e.g. %s=(3, 3) and still gets a %s sample, i.e. not the declared shape'
+                                % (sub.name, key, short(val, 60), short(dflt, 20) if dflt is not None else 'none', ci.name, stored, key, stored),
+                                sub.loc, expected="Required(%r, default=None): None" % key, found=short(val, 60))
 
 
 def _select_items(items, asg):
